@@ -10,7 +10,7 @@ import json, os, subprocess, sys, glob, time, shutil
 
 EXTRA = {  # related checks that share mechanisms with the seeded property
     "C01": ["C05", "C03", "C06"], "C02": ["C07", "C03", "C16", "C06", "C12"], "C03": ["C09", "C19"], "C05": ["C06"], "C07": ["C08"], "C08": ["C07"],
-    "C10": ["C14", "C13"], "C12": ["C13"], "C13": ["C12"], "C14": ["C13", "C15"], "C15": ["C12"], "C16": ["C17"], "C17": ["C16"],
+    "C10": ["C14", "C13"], "C12": ["C13"], "C13": ["C12"], "C14": ["C13", "C15"], "C15": ["C12", "C14"], "C16": ["C17"], "C17": ["C16"],
     "C19": ["C10"],
 }
 S = os.environ.get("SENS_DIR", "/tmp/sens")
